@@ -723,6 +723,45 @@ example : ∃ inp : TxIn Nat, (runTxGen inp 0).1 = .err ∧ (inp.ante 0).1 = .ok
   ⟨{ envReject := fun _ => false, basicOk := true, ante := fun s => (.ok, s), msgs := [fun s => (.err, s)], postOk := true, unknown := id },
     by decide, rfl⟩
 
+/-- a transaction one of whose messages fails in EVERY state fails as a whole and keeps nothing but what the ante handler
+wrote — whatever the messages before it did on the branch, whatever stands after it -/
+theorem tx_with_refused_message_keeps_only_ante {σ : Type} (inp : TxIn σ) (pre post : List (σ → Res × σ))
+    (f : σ → Res × σ) (hm : inp.msgs = pre ++ f :: post) (hf : ∀ x, (f x).1 = .err) (s : σ) :
+    (runTxGen inp s).1 = .err ∧
+      ((runTxGen inp s).2 = s ∨ ((inp.ante s).1 = .ok ∧ (runTxGen inp s).2 = (inp.ante s).2)) := by
+  have hfail : (runTxGen inp s).1 = .err := by
+    rcases run_tx_gen_outcome inp s with h0 | ⟨hb, s1, ha, h1 | h1⟩
+    · rw [h0]
+    · rw [h1]
+    · rw [h1]
+      unfold runTxSpec
+      simp only [hb, Bool.not_true, Bool.false_eq_true, ↓reduceIte, ha]
+      have hl := loopMsgsG_fails_of_refused f hf pre post s1 .ok
+      rw [← hm] at hl
+      rcases hm' : loopMsgsG true inp.msgs s1 .ok with ⟨rm, s2⟩
+      rw [hm'] at hl
+      simp only at hl
+      subst hl
+      rfl
+  exact ⟨hfail, run_tx_failure_keeps_only_ante inp s hfail⟩
+
+/-- SIBLING MESSAGES: a transaction that carries — anywhere among its messages — a privileged message whose authority does
+not decode to the governance account is refused as a whole: the effects of every other message in it (a bank send in
+front of the privileged message, anything behind it) never reach the block's state (monitored on the `blk` lines) -/
+theorem siblings_of_refused_privileged_message_never_survive {σ : Type} (r : Registration) (hr : r ∈ C16Sem.registrations)
+    (sv : Service) (hsv : sv ∈ C16Sem.services) (hpkg : sv.pkg = r.service)
+    (mm : String × String) (hmm : mm ∈ sv.methods) (hmsg : mm.2 ≠ "")
+    (env : Env) (hgov : lowerAsciiStr env.gov = true) (auth : Str) (W : World σ) (payloadOk : Bool)
+    (h : accAddress env.cfg auth ≠ accAddress env.cfg env.gov)
+    (inp : TxIn σ) (pre post : List (σ → Res × σ))
+    (hm : inp.msgs = pre ++ routed prog C16Sem.msgInfos env auth W payloadOk r.impl mm.1 mm.2 :: post) (s : σ) :
+    (runTxGen inp s).1 = .err ∧
+      ((runTxGen inp s).2 = s ∨ ((inp.ante s).1 = .ok ∧ (runTxGen inp s).2 = (inp.ante s).2)) :=
+  tx_with_refused_message_keeps_only_ante inp pre post _ hm
+    (fun x => by rw [routed_rejects_other_accounts r hr sv hsv hpkg mm hmm hmsg env hgov auth W payloadOk x h]) s
+
+example : ∃ (f : Nat → Res × Nat), ∀ x, (f x).1 = .err := ⟨fun x => (.err, x), fun _ => rfl⟩
+
 /-! ### whole blocks (round 4): `FinalizeBlock` runs the transactions one after the other on the block's state -/
 
 /-- the transaction carries an authority message of a registered Msg service, served by the registered concrete type -/
